@@ -16,12 +16,16 @@ Record rctx := mkRC { rc_me : N; rc_snap : rsnap; rc_fund : list icept; rc_settl
 (* observed: decision class (0 Drop 1 AskUser 2 AutoAccept 3 Reject 4 Reply 5 Panic 6 Block), responses
    on the bus (0 = ChannelUpdateAcc, 1 = ChannelUpdateRej), machine mutex free afterwards, machine
    afterwards, the own signature carried by the ChannelUpdateAcc *)
-Record robs := mkObs { o_dec : N; o_sent : list N; o_free : bool; o_after : rsnap; o_sig : option tokref }.
+Record robs := mkObs { o_dec : N; o_sent : list N; o_free : bool; o_after : rsnap; o_sig : option tokref;
+                       o_waited : bool (* the handler took as long as the state watcher's timeout *) }.
 Inductive hcase :=
 | HUpd (c : rctx) (known : bool) (r : rreq) (accept : bool) (o : robs)
 | HSync (c : rctx) (known : bool) (reach : bool) (phase : N) (tx : option nat) (o : robs)
 (* a validator of the virtual-channel proposals on its own: 0 accepted, 1 error, 2 panic *)
-| HVal (c : rctx) (r : rreq) (o : N).
+| HVal (c : rctx) (r : rreq) (o : N)
+(* the UpdateResponder of a request used several times (true = Accept, false = Reject), as the
+   virtual-channel handlers and the settlement watcher do: number of calls that returned, responses *)
+| HResp (c : rctx) (u : rupd) (calls : list bool) (returned : nat) (sent : list N).
 
 (* short form of the states of the file's channel *)
 Definition mkS (id : bytes) (bk ass : list N) (app : option bytes) (v : N) (b : list (list Z))
@@ -56,6 +60,18 @@ Section WithTable.
     end.
   Definition nl_eqb := list_eqb N.eqb.
 
+  Fixpoint run_resp (m : mach) (u : upd) (calls : list bool) (s : rstate) : nat * list resp :=
+    match calls with
+    | [] => (0%nat, rs_sent s)
+    | acc :: rest =>
+        let send := if acc then match accept_update m u (peer_idx m) with (_, AccSigned _) => true | _ => false end
+                    else true in
+        match respond V (if acc then SentAcc else SentRej) send s with
+        | None => (0%nat, rs_sent s)
+        | Some s' => let '(n, sn) := run_resp m u rest s' in (S n, sn)
+        end
+    end.
+
   Definition good (h : hcase) : bool :=
     match h with
     | HUpd c known r accept o =>
@@ -71,6 +87,7 @@ Section WithTable.
         | Block => (o_dec o =? 6) && negb (o_free o) && nl_eqb (map resp_code (r_sent res)) (o_sent o)
         | d =>
             (o_dec o =? dec_code d) && nl_eqb (map resp_code (r_sent res)) (o_sent o)
+            && Bool.eqb (if known then waits V cc rq else false) (o_waited o)
             && Bool.eqb (r_unlocked res) (o_free o)
             && mach_eqb (r_mach res) (conv_snap P sts (rc_me c) (o_after o))
             && sig_agrees (match d with AutoAccept => countersigns V cc rq | _ => None end) (o_sig o)
@@ -84,6 +101,10 @@ Section WithTable.
         | d => (o_dec o =? dec_code d)
                && (if known then mach_eqb (r_mach res) (conv_snap P sts (rc_me c) (o_after o)) else true)
         end
+    | HResp c u calls returned sent =>
+        let cc := cctx c in
+        let '(n, sn) := run_resp (cx_mach cc) (cupd u) calls rs0 in
+        (n =? returned)%nat && nl_eqb (map resp_code sn) sent
     | HVal c r o =>
         let cc := cctx c in
         match current (cx_mach cc), creq r with
